@@ -25,6 +25,7 @@ RULE = ('One data file holds 1..3 planted sources, each from its own model (fit(
         'errors in [1e-3, 0.5]; in half of the cases the rows of parameters.fits are re-ordered after the convolution. The reference decides non-degeneracy: every other model (and every other grid distance of '
         'm) must have reference chi^2 > 1e-3 (+ float32 slack), else the case is counted as degenerate and skipped. '
         'Non-trivial = non-degenerate case with >= 2 models; distinct = distinct canonical JSON.')
+RULE += (' ' + 'Also varied: per-model wavelength grids in per-file packages, documented file layouts (.gz, sub-directories, parameters.fits.gz), stored units.')
 ASSUMPTIONS = [
     'chi2[0] <= 1e-6 (+ float32 slack for cube packages, whose model fluxes fit() memory-maps as float32)',
     'A_V and scale within 1e-6*(1+|p|) plus the first-order float32 perturbation bound',
